@@ -136,16 +136,31 @@ def run(ctx: Context):
                                     "/".join(sorted({rg, rf} & _loads(n))), witness(cfg, parent, (nid, st)).brief()),
                                 witness(cfg, parent, (nid, st)))
             # the loop test: a branch on augmenting_path_for(rg) (directly or through a local holding its result)
-            fnorm = FlowNorm(fn)
             apf = "augmenting_path_for(%s)" % rg
+            plain = Normaliser(Env(None, depth=0))
 
-            def has_path(op, l, rr):
-                return op == "truth" and l == apf
+            def fact1(n, lab, _fl=fl):
+                """Plain fact on the edge; a bare local is replaced by its unique reaching definition (one hop)."""
+                f = fact_on_edge(plain, n, lab)
+                if f and f[0] in ("truth", "false") and isinstance(n.ast, ast.Name):
+                    v = _fl.unique_def(n, n.ast.id)[1]
+                    if v is not None:
+                        return (f[0], norm_plain(v), None)
+                return f
 
-            def no_path(op, l, rr):
-                return op == "false" and l == apf
-            tests = [n for n in cfg.nodes if n.kind == "test" and (fnorm.edge_fact(n, ("T", n.ast)) or ("",))[0] in ("truth", "false")
-                     and fnorm.edge_fact(n, ("T", n.ast))[1] == apf]
+            def infeasible(n, lab):
+                return n.kind == "test" and isinstance(lab, tuple) and isinstance(n.ast, ast.Constant) \
+                    and bool(n.ast.value) != (lab[0] == "T")
+
+            def has_path_edge(n, lab):
+                f = fact1(n, lab)
+                return bool(f) and f[0] == "truth" and f[1] == apf
+
+            def no_path_edge(n, lab):
+                f = fact1(n, lab)
+                return infeasible(n, lab) or (bool(f) and f[0] == "false" and f[1] == apf)
+            tests = [n for n in cfg.nodes if n.kind == "test" and has_path_edge(n, ("T", n.ast)) or
+                     (n.kind == "test" and (fact1(n, ("T", n.ast)) or ("", ""))[1] == apf)]
             if not tests:
                 raise AnchorVanished("%s: loop test on augmenting_path_for(%s)" % (q, rg))
             for n in tests:
@@ -165,7 +180,7 @@ def run(ctx: Context):
                 hd = iter_node(cfg, enc[-1])
                 # a recomputation after the whole path was applied invalidates the test; one inside the update loop
                 # (per edge, as in _compute_maximum_graph) does not change which path is being applied
-                bad = find_path_avoiding(cfg, lambda x, _h=hd: x is _h, gate_edge=fact_gate(fnorm, has_path),
+                bad = find_path_avoiding(cfg, lambda x, _h=hd: x is _h, gate_edge=has_path_edge,
                                          kill=lambda x, _l=enc[-1]: is_rec(x) and _l not in enclosing_for(fn, x.ast))
                 for (t, w) in bad:
                     r.violation(fn, fn.loc(t.ast), "the flow is augmented although the current residual graph was not tested "
@@ -179,7 +194,7 @@ def run(ctx: Context):
             if not outs:
                 raise AnchorVanished("%s: result return" % q)
             for o in outs:
-                bad = find_path_avoiding(cfg, lambda x, _o=o: x is _o, gate_edge=fact_gate(fnorm, no_path),
+                bad = find_path_avoiding(cfg, lambda x, _o=o: x is _o, gate_edge=no_path_edge,
                                          kill=lambda x: is_upd(x))
                 for (t, w) in bad:
                     r.violation(fn, fn.loc(t.ast), "the result is produced while an augmenting path may still exist "
@@ -211,7 +226,8 @@ def run(ctx: Context):
                 u, v = tgt.elts[0].id, tgt.elts[1].id
                 head = iter_node(cfg, loop)
                 # iterable: the path found by augmenting_path_for(rg)
-                po = fl.origin(head, loop.iter)
+                pv_ = fl.unique_def(head, loop.iter.id)[1] if isinstance(loop.iter, ast.Name) else loop.iter
+                po = norm_plain(pv_) if pv_ is not None else src(fn, loop.iter)
                 r.require(po == "augmenting_path_for(%s)" % rg, fn, fn.loc(loop),
                           "the update loop runs over %s, not over the augmenting path of %s" % (po, rg))
                 plus = [n for n in us if isinstance(n.ast.op, ast.Add)]
